@@ -100,6 +100,170 @@ def _flows_to_return(fn, local):
     return False
 
 
+class _NoEval(Exception):
+    pass
+
+
+def _ival(n, env, lets, depth=0):
+    """integer value of an expression under env (local name -> int); unknown locals are evaluated from their single `let`"""
+    n = hirq.strip(n)
+    k = n.get("k")
+    if depth > 12:
+        raise _NoEval("depth")
+    if k == "lit" and "int" in n["v"]:
+        return n["v"]["int"]
+    if k == "cast":
+        return _ival(n["e"], env, lets, depth + 1)
+    if k == "block" and not n.get("stmts") and n.get("e"):
+        return _ival(n["e"], env, lets, depth + 1)
+    if k == "path" and "local" in n["res"]:
+        nm = n["res"]["local"]
+        if nm in env:
+            return env[nm]
+        if nm in lets:
+            return _ival(lets[nm], env, lets, depth + 1)
+        raise _NoEval(nm)
+    if k == "field":
+        r = hirq.render(n)
+        if r in env:
+            return env[r]
+        raise _NoEval(r)
+    if k == "if":
+        c = _bval(n["c"], env, lets, depth + 1)
+        return _ival(n["then"] if c else n["else"], env, lets, depth + 1)
+    if k == "bin" and n["op"] in ("+", "-", "*"):
+        a, b = _ival(n["l"], env, lets, depth + 1), _ival(n["r"], env, lets, depth + 1)
+        return a + b if n["op"] == "+" else a - b if n["op"] == "-" else a * b
+    if k == "mcall" and n["m"] in ("min", "max") and len(n["args"]) == 1:
+        a, b = _ival(n["recv"], env, lets, depth + 1), _ival(n["args"][0], env, lets, depth + 1)
+        return min(a, b) if n["m"] == "min" else max(a, b)
+    if k == "mcall" and n["m"] in ("saturating_sub", "wrapping_sub", "checked_sub") and len(n["args"]) == 1:
+        a, b = _ival(n["recv"], env, lets, depth + 1), _ival(n["args"][0], env, lets, depth + 1)
+        return max(a - b, 0) if n["m"] == "saturating_sub" else a - b
+    raise _NoEval(hirq.render(n)[:60])
+
+
+def _bval(n, env, lets, depth=0):
+    n = hirq.strip(n)
+    k = n.get("k")
+    if k == "bin" and n["op"] in ("&&", "||"):
+        a, b = _bval(n["l"], env, lets, depth + 1), _bval(n["r"], env, lets, depth + 1)
+        return (a and b) if n["op"] == "&&" else (a or b)
+    if k == "bin" and n["op"] in ("<", "<=", ">", ">=", "==", "!="):
+        a, b = _ival(n["l"], env, lets, depth + 1), _ival(n["r"], env, lets, depth + 1)
+        return {"<": a < b, "<=": a <= b, ">": a > b, ">=": a >= b, "==": a == b, "!=": a != b}[n["op"]]
+    if k == "un" and n["op"] == "Not":
+        return not _bval(n["e"], env, lets, depth + 1)
+    if k == "path" and "local" in n["res"] and n["res"]["local"] in lets:
+        return _bval(lets[n["res"]["local"]], env, lets, depth + 1)
+    raise _NoEval(hirq.render(n)[:60])
+
+
+def _range_rule(ctx, R, fn):
+    body = fn.hir["body"]
+    lets = {l["pat"]["name"]: l["init"] for l in hirq.find(body, "let") if l["pat"].get("k") == "bind" and l.get("init") is not None}
+    # roles: signature bounds = locals/fields initialised from *begin_exclude / *end_exclude; chunk end = `start + len`
+    def role_of(name):
+        init_n = hirq.strip(lets[name]) if name in lets else None
+        init = hirq.render(init_n) if init_n is not None and init_n.get("k") in ("field", "path", "cast", "mcall") else ""
+        if re.search(r"begin_exclude$", init) or re.match(r"^sig(nature)?_(begin|start)$", name):
+            return "SB"
+        if re.search(r"end_exclude$", init) or re.match(r"^sig(nature)?_end$", name):
+            return "SE"
+        return None
+    zero_ifs = []
+    for n in hirq.find(body, "if"):
+        zs = [x for x in hirq.walk(n["then"]) if (x.get("k") == "assign" and hirq.lit_int(x["r"]) == 0 and hirq.strip(x["l"]).get("k") in ("path", "index") and hirq.strip(x["l"]) is not x["l"])
+              or (x.get("k") == "mcall" and x["m"] == "fill" and x["args"] and hirq.lit_int(x["args"][0]) == 0)]
+        if zs and not any(m is not n and any(z is y for y in hirq.walk(m["then"]) for z in zs) for m in hirq.find(n["then"], "if")):
+            zero_ifs.append(n)
+    if not zero_ifs:
+        ctx.bad(R, "calculate_mpq_hash_md5|no-zeroing", fn.where, "no conditional zeroing of the signature bytes found", "the stored signature would be hashed into itself: no signed archive verifies")
+        return
+    n = zero_ifs[0]
+    names = sorted({x["res"]["local"] for x in hirq.walk(n["c"]) if x.get("k") == "path" and "local" in x["res"]})
+    roles = {nm: role_of(nm) for nm in names}
+    chunk = [nm for nm in names if roles[nm] is None]
+    ce = next((nm for nm in chunk if nm in lets and hirq.strip(lets[nm]).get("k") == "bin" and hirq.strip(lets[nm])["op"] == "+"), None)
+    cs = ln = None
+    if ce:
+        add = hirq.strip(lets[ce])
+        parts = [hirq.strip(add["l"]), hirq.strip(add["r"])]
+        for p_ in parts:
+            while p_.get("k") == "cast":
+                p_ = hirq.strip(p_["e"])
+            if p_.get("k") == "path" and "local" in p_["res"]:
+                if cs is None:
+                    cs = p_["res"]["local"]
+                else:
+                    ln = p_["res"]["local"]
+    sb = next((nm for nm in names if roles[nm] == "SB"), None)
+    se = next((nm for nm in names if roles[nm] == "SE"), None)
+    # SB / SE may be absent from the condition itself in a broken variant: look them up in the function
+    allnames = set(lets)
+    sb = sb or next((nm for nm in sorted(allnames) if role_of(nm) == "SB"), None)
+    se = se or next((nm for nm in sorted(allnames) if role_of(nm) == "SE"), None)
+    if not (ce and cs and sb and se):
+        ctx.bad(R, "calculate_mpq_hash_md5|roles", "%s:%d" % (fn.file, n["ln"]), "cannot identify chunk start/end and signature begin/end in `%s` (found %s)" % (hirq.render(n["c"])[:80], roles),
+                "overlap test not recognisable")
+        return
+    # the zeroed sub-range
+    rng = None
+    for x in hirq.walk(n["then"]):
+        if x.get("k") == "index" and hirq.strip(x["i"]).get("k") == "struct" and hirq.strip(x["i"])["res"].get("def", "").endswith("range::Range"):
+            fl = dict((a, b) for a, b in hirq.strip(x["i"])["fields"])
+            rng = (fl.get("start"), fl.get("end"))
+            break
+    inner_lets = dict(lets)
+    bad_cond = bad_rng = None
+    checked = 0
+    G = range(0, 7)
+    for CS in G:
+        for CE in G:
+            if not CS < CE:
+                continue
+            for SB in G:
+                for SE in G:
+                    if not SB < SE:
+                        continue
+                    env = {cs: CS, ce: CE, sb: SB, se: SE}
+                    if ln:
+                        env[ln] = CE - CS
+                    want = CS < SE and CE > SB
+                    try:
+                        got = _bval(n["c"], env, {k_: v_ for k_, v_ in inner_lets.items() if k_ not in env})
+                    except _NoEval as e:
+                        ctx.bad(R, "calculate_mpq_hash_md5|opaque-condition", "%s:%d" % (fn.file, n["ln"]), "overlap test `%s` is not a pure comparison of the interval end points (%s)" % (hirq.render(n["c"])[:80], e), "cannot be decided over orderings")
+                        return
+                    checked += 1
+                    if got != want and bad_cond is None:
+                        bad_cond = (env, got, want)
+                    if want and got and rng and bad_rng is None:
+                        try:
+                            a = _ival(rng[0], env, {k_: v_ for k_, v_ in inner_lets.items() if k_ not in env})
+                            b = _ival(rng[1], env, {k_: v_ for k_, v_ in inner_lets.items() if k_ not in env})
+                        except _NoEval:
+                            continue
+                        wa, wb = max(SB, CS) - CS, min(SE, CE) - CS
+                        if (a, b) != (wa, wb):
+                            bad_rng = (env, (a, b), (wa, wb))
+    where = "%s:%d" % (fn.file, n["ln"])
+    if bad_cond:
+        env, got, want = bad_cond
+        ctx.bad(R, "calculate_mpq_hash_md5|overlap-test", where, "`%s` is %s for chunk [%d,%d) and signature [%d,%d), where overlap is %s" % (hirq.render(n["c"])[:80], got, env[cs], env[ce], env[sb], env[se], want),
+                "for that arrangement the stored signature bytes are hashed (or unrelated bytes are zeroed): generator and verifier digest different content, so a valid signature is rejected or an altered byte goes unnoticed")
+    else:
+        ctx.ok(R, {"fn": fn.path, "overlap_test": hirq.render(n["c"])[:80], "orderings_checked": checked})
+    if rng is None:
+        ctx.note_unarmed(R, "zeroed-range", "zeroed sub-range not an index by Range")
+    elif bad_rng:
+        env, got, want = bad_rng
+        ctx.bad(R, "calculate_mpq_hash_md5|zeroed-range", where, "zeroes buffer[%d..%d] for chunk [%d,%d) and signature [%d,%d); the overlap is [%d..%d]" % (got[0], got[1], env[cs], env[ce], env[sb], env[se], want[0], want[1]),
+                "bytes outside the signature are excluded from (or signature bytes included in) the digest")
+    else:
+        ctx.ok(R, {"fn": fn.path, "zeroed_range": "%s..%s" % (hirq.render(rng[0]), hirq.render(rng[1])), "equals": "max(sig_begin,chunk_start)-chunk_start .. min(sig_end,chunk_end)-chunk_start"})
+
+
 TARGETS = [
     # (crate, function path, minimum number of compared digests)
     ("wow_mpq", "wow_mpq::archive::Archive::read_file", 1),
@@ -179,6 +343,54 @@ def run(ctx):
             else:
                 ctx.bad(R_stored, key, f.where, "`%s: %s` is read from the archive but never compared with a computed checksum" % (name, ty[:60]),
                         "per-sector checksums are stored but not enforced: altered sector data is returned as valid")
+
+    # per-sector validation applies to every sector: inside the sector loop the digest may only be guarded by the
+    # presence of the stored checksums, never by a property of the individual sector
+    R_every = ctx.rule("C10.every-sector-validated", "inside a sector loop the checksum computation is guarded only by the presence of the stored checksum table (loop-invariant), not by per-sector state", floor=1)
+    from .c07 import enclosing_if_conditions
+    for path in ("wow_mpq::archive::Archive::read_sectored_file", "wow_mpq::archive::Archive::read_file", "wow_mpq::archive::Archive::read_file_by_indices"):
+        f = mpq.fns.get(path)
+        if f is None or not f.hir:
+            continue
+        body = f.hir["body"]
+        loops = [n for n in hirq.walk(body) if n.get("k") in ("for", "loop", "while")]
+        for c in hirq.calls(body):
+            if not DIGEST.search(c.get("fn") or ""):
+                continue
+            inside = [lp for lp in loops if any(x is c for x in hirq.walk(lp["body"]))]
+            if not inside:
+                continue
+            lp = inside[-1]          # innermost
+            local_names = set(hirq.pat_binds(lp.get("pat"))) if lp.get("pat") else set()
+            for l_ in hirq.walk(lp["body"]):
+                if l_.get("k") in ("let", "letx"):
+                    local_names |= set(hirq.pat_binds(l_["pat"]))
+            conds = enclosing_if_conditions(lp["body"], c)
+            offenders = []
+            for side, cond in conds:
+                conj = []
+
+                def split(n):
+                    n = hirq.strip(n)
+                    if n.get("k") == "bin" and n["op"] == "&&":
+                        split(n["l"])
+                        split(n["r"])
+                    else:
+                        conj.append(n)
+                split(cond)
+                for cj in conj:
+                    if cj.get("k") == "letx" and NAMED_SUM.match(hirq.render(hirq.strip(cj["init"])).split(".")[-1].split("(")[0] or ""):
+                        continue
+                    used = {x["res"]["local"] for x in hirq.walk(cj) if x.get("k") == "path" and "local" in x["res"]}
+                    per_sector = sorted((used & local_names) - {n_ for n_ in used if NAMED_SUM.match(n_)})
+                    if per_sector:
+                        offenders.append((hirq.render(cj)[:80], per_sector))
+            key = "%s|per-sector-guard" % path.split("::")[-1]
+            if offenders:
+                ctx.bad(R_every, key, "%s:%d" % (f.file, c["ln"]), "checksum of a sector is only computed when `%s` (per-sector state: %s)" % (offenders[0][0], ", ".join(offenders[0][1])),
+                        "sectors for which the guard is false are returned without validation although a stored checksum exists: corruption in them is not detected")
+            else:
+                ctx.ok(R_every, {"fn": path, "line": c["ln"], "guards": [hirq.render(cd)[:60] for _, cd in conds]})
 
     # synthetic data on failure
     for path in ("wow_mpq::archive::Archive::read_file", "wow_mpq::archive::Archive::read_sectored_file",
@@ -266,6 +478,15 @@ def run(ctx):
                 ctx.bad(R_v4, key, vf.where, "; ".join(problems), "a corrupted table/header would still be reported valid")
             else:
                 ctx.ok(R_v4, {"digest": d, "status_field": want[0], "via": kind})
+
+    # signature area is excluded exactly: decided over all orderings of the four interval endpoints (finite domain)
+    R_rng = ctx.rule("C10.signature-area-excluded-exactly", "in the range hash, bytes are zeroed exactly when the chunk overlaps the signature area, and exactly the overlapping sub-range — for every ordering of the chunk and signature end points", floor=2)
+    hfn = mpq.fns.get("wow_mpq::crypto::signature::calculate_mpq_hash_md5")
+    if hfn is None or not hfn.hir:
+        ctx.bad(R_rng, "calculate_mpq_hash_md5|missing", "-", "range hash function not found", "anchor gone")
+    else:
+        ctx.saw_fn(hfn)
+        _range_rule(ctx, R_rng, hfn)
 
     # signatures
     gen = mpq.fns.get("wow_mpq::crypto::signature::generate_weak_signature")
